@@ -26,6 +26,7 @@ RULE = (
     "protein/water atoms keep the force field's values, an atom known to neither force field nor "
     'MOL2 is never written.  table also checks the pinned residue/atom naming map (one direction).  '
     'e2e includes hidden chain ends and strands whose nucleotide states follow from the descriptor.'
+    ' e2e also draws `big` structures (protein + strands in one file, 4-30 chains, 53-56 hidden chains, long chains, water box).  userff: every residue rule is spelled as one of five equivalent regular expressions (literal, group, top-level alternation, non-capturing alternation, character class).'
 )
 ASSUMPTIONS = [
     "the DAT/.names data files define the parameters (read independently of pdb2pqr)",
